@@ -1,7 +1,7 @@
 ------------------------------ MODULE CcDisplay ------------------------------
-(* Closed Caption display memories, a reference machine written from EIA-608 / 47 CFR 15.119
-   for the caption channels CC1..CC4 (CC1/CC2 on field 1, CC3/CC4 on field 2).  The decoders
-   under test are vbi_decode_caption()/caption_command() in src/caption.c (through vbi_decode)
+(* Closed Caption display memories, a reference machine written from EIA-608-B / 47 CFR 15.119
+   for the caption channels CC1..CC4 (CC1/CC2 on field 1, CC3/CC4 on field 2).  The decoder
+   under test is vbi_decode_caption()/caption_command() in src/caption.c (through vbi_decode)
    read back with vbi_fetch_cc_page().
 
    One action per received byte pair.  Per channel: mode, displayed and non-displayed memory
@@ -12,27 +12,57 @@
    erase-displayed-memory in pop-on mode, after a completed word or any control code otherwise
    (vis marks those points).
 
-   Covered codes: RCL, RU2/3/4, RDC, EOC, EDM, ENM, CR (roll-up), BS, DER, TO1-3, PAC (row, indent,
-   colour, underline), mid-row codes, printable characters incl. one special character, control
-   codes doubled on field 1, null pairs, channels and fields interleaved.
-   Not generated: text channels T1-T4, background attributes, FON, extended characters, PACs that
-   move the base row of a running roll-up caption, change of roll-up depth without mode change.  *)
+   Rules taken from the standard (section numbers of 47 CFR 15.119 / EIA-608-B):
+   * (f)(1)(v)  the cursor advances after every character; once it has reached column 32 it stays
+                there and every further character replaces the one in column 32 until a PAC, CR or BS.
+   * (f)(1)(vi) BS moves the cursor one column to the left and erases that cell; ignored in column 1.
+                (So after a character was written in column 32 the cursor is still in column 32 and BS
+                erases column 31.)
+   * (f)(1)(vii), (f)(2)(iii), (f)(3)(ii)  DER erases the cursor cell and all cells to its right.
+   * (e)(1)(ii) TO1-3 move the cursor 1-3 columns to the right, not beyond column 32; nothing is erased.
+   * (f)(1)(ii) roll-up: RUx from another mode erases both memories, base row 15, cursor column 1;
+                a PAC with another row moves the whole window to the new base row at once; Annex C.4:
+                a base row that leaves no room for the window above it is replaced by the lowest row
+                that does (row 1 with RU3 -> base row 3); the cursor always stays on the base row.
+   * (f)(1)(iii) CR rolls the window up one row, the base row becomes blank, cursor column 1.
+   * (f)(2)     EOC flips the memories and selects pop-on mode; EDM / ENM erase one memory.
+   * (i)        a control pair is sent twice in succession on field 1; the second pair is ignored when
+                it follows the first IMMEDIATELY - a third identical pair is a new command, and a pair
+                that follows text or a null (fill) pair is a new command as well.
+
+   Covered codes: RCL, RU2/3/4, RDC, EOC, EDM, ENM, CR (roll-up), BS, DER, TO1-3, PAC (15 rows, 8 indents,
+   colour, italics, underline), mid-row codes, printable characters incl. one special character, control
+   codes repeated 1..4 times on field 1, null pairs, channels and fields interleaved.
+   Not generated (see Legal and doc/notes-C08.md): text channels T1-T4, background attributes, FON,
+   extended characters, PACs that move a NON-EMPTY roll-up window, change of roll-up depth without mode
+   change, and the other inputs on which caption.c is known to leave the standard.  *)
 EXTENDS Naturals, Integers, Sequences, FiniteSets, TLC
 
 CONSTANTS Chans,        \* subset of 1..4
           Rows,         \* rows used by PACs (0..14)
           Chars,        \* printable codes used
-          MaxPairs
+          MaxPairs,
+          Indents,      \* PAC indents used (subset of {0, 4, .., 28})
+          Depths,       \* roll-up depths used (subset of {2, 3, 4})
+          Tabs,         \* tab offsets used (subset of {1, 2, 3})
+          Kinds         \* control code classes used: subset of AllKinds; "PACX" adds the coloured / italic /
+                        \* underlined PAC variants, "NULL" the null pairs, "TEXT" the character pairs
+
+AllKinds == {"RCL", "RDC", "EOC", "EDM", "ENM", "CR", "BS", "DER", "RU", "TO", "PAC", "PACX", "MID", "SPC", "NULL", "TEXT"}
 
 Empty == [u |-> 0, fg |-> 0, ul |-> FALSE, it |-> FALSE]
 Cols == 1..32
 Pen0 == [fg |-> 7, ul |-> FALSE, it |-> FALSE]
-Mem0 == [r \in 0..14 |-> [c \in Cols |-> Empty]]
-Chan0 == [mode |-> "none", disp |-> Mem0, nond |-> Mem0, row |-> 14, col |-> 1, pen |-> Pen0, roll |-> 0, base |-> 14]
+Row0 == [c \in Cols |-> Empty]
+Mem0 == [r \in 0..14 |-> Row0]
+\* stale / fresh are ghosts used by Legal only: stale = the non-displayed memory holds the caption that was
+\* displayed before the last EOC and was not erased since; fresh = no PAC / RUx since the last EOC
+Chan0 == [mode |-> "none", disp |-> Mem0, nond |-> Mem0, row |-> 14, col |-> 1, pen |-> Pen0, roll |-> 0, base |-> 14,
+          stale |-> FALSE, fresh |-> FALSE]
 
 VARIABLES ch,          \* per channel state
           cur,         \* per field (1, 2): current channel of that field (0: none selected yet)
-          last,        \* last control pair received on field 1 (for the doubling rule), or <<>>
+          last,        \* last control pair received on field 1 if the next pair may be its repetition, or <<>>
           vis,         \* channels whose displayed memory is at a visibility point after this pair
           ev,          \* channels whose visible page changed with this pair (caption event expected)
           lm,          \* ghost: channel of the last mode command (RCL, RUx, RDC, EOC) on either field
@@ -45,7 +75,7 @@ Init == /\ ch = [c \in Chans |-> Chan0] /\ cur = [f \in {1, 2} |-> 0] /\ last = 
 
 \* memory that receives text
 Target(s) == IF s.mode = "pop" THEN "nond" ELSE "disp"
-Put(s, cell) ==     \* write a cell at the cursor and advance
+Put(s, cell) ==     \* write a cell at the cursor and advance; in column 32 the cursor stays
   LET m == Target(s)
       mem == IF m = "nond" THEN s.nond ELSE s.disp
       mem1 == [mem EXCEPT ![s.row][s.col] = cell]
@@ -55,21 +85,30 @@ Glyph(s, u) == [u |-> u, fg |-> s.pen.fg, ul |-> s.pen.ul, it |-> s.pen.it]
 SetMem(s, mem) == IF Target(s) = "nond" THEN [s EXCEPT !.nond = mem] ELSE [s EXCEPT !.disp = mem]
 GetMem(s) == IF Target(s) = "nond" THEN s.nond ELSE s.disp
 
+\* base row a PAC for `row` selects for a roll-up window of depth n: the window stays on the screen
+ClampBase(row, n) == IF row < n - 1 THEN n - 1 ELSE row
+\* the roll-up window (depth n, base row b) moved to base row nb; everything else is blank
+MoveWindow(mem, n, b, nb) == [r \in 0..14 |-> IF r > nb - n /\ r <= nb /\ r - (nb - b) \in 0..14 THEN mem[r - (nb - b)] ELSE Row0]
+
 \* effect of a control code on channel state s
 Do(s, code) ==
   CASE code.k = "RCL" -> [s EXCEPT !.mode = "pop"]
     [] code.k = "RDC" -> [s EXCEPT !.mode = "paint"]
-    [] code.k = "RU"  -> IF s.mode = "roll" THEN s
+    [] code.k = "RU"  -> IF s.mode = "roll"
+                         THEN (IF code.n >= s.roll
+                               THEN [s EXCEPT !.roll = code.n]    \* (growing next to the top of the screen is not decided here: outside Legal)
+                               ELSE [s EXCEPT !.roll = code.n,    \* (f)(1)(iv): the rows that leave the window are erased
+                                              !.disp = [r \in 0..14 |-> IF r > s.base - s.roll /\ r <= s.base - code.n THEN Row0 ELSE s.disp[r]]])
                          ELSE [s EXCEPT !.mode = "roll", !.roll = code.n, !.disp = Mem0, !.nond = Mem0,
-                                        !.base = 14, !.row = 14, !.col = 1]
-    [] code.k = "EOC" -> [s EXCEPT !.mode = "pop", !.disp = s.nond, !.nond = s.disp]
+                                        !.base = 14, !.row = 14, !.col = 1, !.stale = FALSE, !.fresh = FALSE]
+    [] code.k = "EOC" -> [s EXCEPT !.mode = "pop", !.disp = s.nond, !.nond = s.disp, !.stale = (s.disp # Mem0), !.fresh = TRUE]
     [] code.k = "EDM" -> [s EXCEPT !.disp = Mem0]
-    [] code.k = "ENM" -> [s EXCEPT !.nond = Mem0]
+    [] code.k = "ENM" -> [s EXCEPT !.nond = Mem0, !.stale = FALSE]
     [] code.k = "CR"  -> IF s.mode # "roll" THEN s
                          ELSE LET top == s.base - s.roll + 1 IN
                               [s EXCEPT !.disp = [r \in 0..14 |->
                                           IF r >= top /\ r < s.base THEN s.disp[r + 1]
-                                          ELSE IF r = s.base THEN [c \in Cols |-> Empty] ELSE s.disp[r]],
+                                          ELSE IF r = s.base THEN Row0 ELSE s.disp[r]],
                                         !.col = 1]
     [] code.k = "BS"  -> IF s.mode = "none" \/ s.col = 1 THEN s
                          ELSE SetMem([s EXCEPT !.col = s.col - 1], [GetMem(s) EXCEPT ![s.row][s.col - 1] = Empty])
@@ -79,18 +118,23 @@ Do(s, code) ==
     [] code.k = "PAC" -> IF s.mode = "none" THEN s
                          ELSE LET pen == [fg |-> code.fg, ul |-> code.ul, it |-> code.it] IN
                               IF s.mode = "roll"
-                              THEN [s EXCEPT !.col = code.indent + 1, !.pen = pen]       \* (base row unchanged: see header)
-                              ELSE [s EXCEPT !.row = code.row, !.col = code.indent + 1, !.pen = pen]
+                              THEN LET nb == ClampBase(code.row, s.roll) IN
+                                   [s EXCEPT !.disp = IF nb = s.base THEN @ ELSE MoveWindow(@, s.roll, s.base, nb),
+                                             !.base = nb, !.row = nb, !.col = code.indent + 1, !.pen = pen, !.fresh = FALSE]
+                              ELSE [s EXCEPT !.row = code.row, !.col = code.indent + 1, !.pen = pen, !.fresh = FALSE]
     [] code.k = "MID" -> IF s.mode = "none" THEN s
                          ELSE LET s1 == [s EXCEPT !.pen = [fg |-> code.fg, ul |-> code.ul, it |-> code.it]] IN
                               Put(s1, Glyph(s1, 32))
     [] code.k = "SPC" -> IF s.mode = "none" THEN s ELSE Put(s, Glyph(s, code.u))
     [] OTHER -> s
 
-\* a control pair for channel c (field FieldOf(c)); on field 1 an immediate repetition is ignored
+Quiet == {"SPC", "BS", "TO", "ENM"}     \* codes that are no visibility point (a special character is a printable character)
+
+\* a control pair for channel c (field FieldOf(c)); on field 1 the immediate repetition of a pair is ignored
+IsRep(c, code) == FieldOf(c) = 1 /\ last = <<c, code>>
 Ctrl(c, code) ==
   LET f == FieldOf(c)
-      rep == f = 1 /\ last = <<c, code>>
+      rep == IsRep(c, code)
   IN /\ np' = np + 1 /\ lastAct' = [a |-> "Ctrl", c |-> c, code |-> code]
      /\ last' = IF f = 1 THEN (IF rep THEN <<>> ELSE <<c, code>>) ELSE last
      /\ lm' = IF ~rep /\ code.k \in {"RCL", "RU", "RDC", "EOC"} THEN c ELSE lm
@@ -99,8 +143,8 @@ Ctrl(c, code) ==
              /\ cur' = [cur EXCEPT ![f] = c]
              \* visibility points: addressing and mode commands, erasures, end of caption, a mid-row code (a space);
              \* not: a special character (printable), backspace / tab offset / erase non-displayed memory
-             /\ vis' = IF code.k \in {"SPC", "BS", "TO", "ENM"} THEN {} ELSE {c}
-             /\ ev' = IF ch'[c].disp # ch[c].disp /\ code.k \notin {"SPC", "BS", "TO", "ENM"} THEN {c} ELSE {}
+             /\ vis' = IF code.k \in Quiet THEN {} ELSE {c}
+             /\ ev' = IF ch'[c].disp # ch[c].disp /\ code.k \notin Quiet THEN {c} ELSE {}
 
 \* a pair of printable characters on field f (second may be 0 = none)
 Text(f, c1, c2) ==
@@ -108,8 +152,8 @@ Text(f, c1, c2) ==
   /\ last' = IF f = 1 THEN <<>> ELSE last
   /\ UNCHANGED <<cur, lm>>
   \* sub-language: characters follow a mode command of their channel (a PAC or mid-row code alone does not
-  \* re-select a channel in the decoder under test, see DESIGN.md C08)
-  /\ cur[f] # 0 => cur[f] = lm
+  \* re-select a channel in the decoder under test, see DESIGN.md C08); not directly after EOC (cursor, see Legal)
+  /\ cur[f] # 0 => (cur[f] = lm /\ ~ch[cur[f]].fresh)
   /\ IF cur[f] = 0 \/ ch[cur[f]].mode = "none" THEN UNCHANGED ch /\ vis' = {} /\ ev' = {}
      ELSE LET c == cur[f]
               s1 == Put(ch[c], Glyph(ch[c], c1))
@@ -119,34 +163,50 @@ Text(f, c1, c2) ==
              /\ vis' = IF s2.mode # "pop" /\ lastc = 32 THEN {c} ELSE {}
              /\ ev' = IF s2.disp # ch[c].disp /\ lastc = 32 THEN {c} ELSE {}
 
+\* a null (fill) pair; on field 1 it ends the window in which a control pair counts as repetition
 Null(f) == /\ np' = np + 1 /\ lastAct' = [a |-> "Null", f |-> f]
-           /\ UNCHANGED <<ch, cur, last, lm>> /\ vis' = {} /\ ev' = {}
+           /\ last' = IF f = 1 THEN <<>> ELSE last
+           /\ UNCHANGED <<ch, cur, lm>> /\ vis' = {} /\ ev' = {}
 
-Codes == {[k |-> "RCL"], [k |-> "RDC"], [k |-> "EOC"], [k |-> "EDM"], [k |-> "ENM"], [k |-> "CR"], [k |-> "BS"], [k |-> "DER"]}
-         \cup {[k |-> "RU", n |-> n] : n \in {2, 3}}
-         \cup {[k |-> "TO", n |-> n] : n \in {1, 3}}
-         \cup {[k |-> "PAC", row |-> r, indent |-> i, fg |-> g, ul |-> u, it |-> FALSE] : r \in Rows, i \in {0, 4}, g \in {7}, u \in {FALSE}}
-         \cup {[k |-> "PAC", row |-> r, indent |-> 0, fg |-> 2, ul |-> TRUE, it |-> FALSE] : r \in Rows}
-         \cup {[k |-> "MID", fg |-> 6, ul |-> FALSE, it |-> FALSE], [k |-> "MID", fg |-> 7, ul |-> TRUE, it |-> TRUE]}
-         \cup {[k |-> "SPC", u |-> 174]}
+K(k) == k \in Kinds
+Codes == (IF K("RCL") THEN {[k |-> "RCL"]} ELSE {}) \cup (IF K("RDC") THEN {[k |-> "RDC"]} ELSE {})
+         \cup (IF K("EOC") THEN {[k |-> "EOC"]} ELSE {}) \cup (IF K("EDM") THEN {[k |-> "EDM"]} ELSE {})
+         \cup (IF K("ENM") THEN {[k |-> "ENM"]} ELSE {}) \cup (IF K("CR") THEN {[k |-> "CR"]} ELSE {})
+         \cup (IF K("BS") THEN {[k |-> "BS"]} ELSE {}) \cup (IF K("DER") THEN {[k |-> "DER"]} ELSE {})
+         \cup (IF K("RU") THEN {[k |-> "RU", n |-> n] : n \in Depths} ELSE {})
+         \cup (IF K("TO") THEN {[k |-> "TO", n |-> n] : n \in Tabs} ELSE {})
+         \cup (IF K("PAC") THEN {[k |-> "PAC", row |-> r, indent |-> i, fg |-> 7, ul |-> FALSE, it |-> FALSE] : r \in Rows, i \in Indents} ELSE {})
+         \cup (IF K("PACX") THEN {[k |-> "PAC", row |-> r, indent |-> 0, fg |-> 2, ul |-> TRUE, it |-> FALSE] : r \in Rows}
+                                 \cup {[k |-> "PAC", row |-> r, indent |-> 0, fg |-> 7, ul |-> FALSE, it |-> TRUE] : r \in Rows}
+                                 \cup {[k |-> "PAC", row |-> r, indent |-> i, fg |-> 7, ul |-> TRUE, it |-> FALSE] : r \in Rows, i \in Indents \ {0}}
+                            ELSE {})
+         \cup (IF K("MID") THEN {[k |-> "MID", fg |-> 6, ul |-> FALSE, it |-> FALSE], [k |-> "MID", fg |-> 7, ul |-> TRUE, it |-> TRUE]} ELSE {})
+         \cup (IF K("SPC") THEN {[k |-> "SPC", u |-> 174]} ELSE {})
 
-\* inputs outside the sub-language this module decides (see header and DESIGN.md C08):
-CellsFree(s, n) == \A k \in s.col..(IF s.col + n > 32 THEN 32 ELSE s.col + n) : GetMem(s)[s.row][k] = Empty
+\* Inputs outside the sub-language this module decides.  Each line is a place where caption.c is known to leave
+\* the standard (doc/notes-C08.md lists them with the reason); the reference machine above still says what the
+\* standard demands there.
+\* the cells a tab offset skips (from the cursor to the cell before the new position)
+CellsFree(s, n) == \A k \in s.col..(IF s.col + n - 1 > 32 THEN 32 ELSE s.col + n - 1) : GetMem(s)[s.row][k] = Empty
 Legal(c, code) ==
   LET s == ch[c] IN
-  /\ (code.k = "PAC" /\ s.mode = "roll") => code.row = s.base             \* PAC does not move a running roll-up caption
+  /\ (code.k = "PAC" /\ s.mode = "roll") => (ClampBase(code.row, s.roll) = s.base \/ s.disp = Mem0)   \* PAC moving a non-empty window
   /\ (code.k = "RU" /\ s.mode = "roll") => code.n = s.roll                 \* no change of depth without mode change
-  /\ code.k = "CR" => s.mode = "roll"                                      \* CR is defined for roll-up captions
-  /\ code.k = "EOC" => s.mode \in {"pop", "none"}
-  /\ code.k = "RCL" => (s.mode \in {"pop", "none"} \/ s.disp = Mem0)   \* pop-on after roll-up / paint-on starts from a cleared screen
-  /\ code.k \in {"SPC", "MID"} => s.mode # "none"                       \* characters before any mode command
-  /\ code.k = "RDC" => s.nond = Mem0                                       \* paint-on starts with an empty non-displayed memory
-  /\ (code.k = "PAC" /\ code.indent > 0 /\ s.mode # "none") =>
-        (LET t == [s EXCEPT !.row = IF s.mode = "roll" THEN s.row ELSE code.row, !.col = 1] IN CellsFree(t, code.indent))
+  /\ code.k = "CR" => s.mode = "roll"                                      \* CR in pop-on / paint-on mode
+  /\ code.k = "EOC" => (s.mode \in {"pop", "none"} /\ ~s.stale)            \* flip back to a caption that was not erased
+  /\ code.k = "RCL" => (s.mode \in {"pop", "none"} \/ s.disp = Mem0)      \* pop-on after roll-up / paint-on starts from a cleared screen
+  /\ code.k \in {"SPC", "MID"} => s.mode # "none"                          \* characters before any mode command
+  /\ code.k = "RDC" => (s.mode = "paint" \/ (s.nond = Mem0 /\ s.disp = Mem0))   \* paint-on starts from cleared memories
+  /\ code.k \in {"SPC", "MID", "BS", "DER", "TO"} => ~s.fresh             \* cursor position after EOC without PAC
+  /\ (code.k = "PAC" /\ code.indent > 0 /\ s.mode # "none") =>                \* PAC indent / TO over cells that are not empty
+        (LET tr == IF s.mode = "roll" THEN ClampBase(code.row, s.roll) ELSE code.row IN
+         \A k \in 1..code.indent : GetMem(s)[tr][k] = Empty)
   /\ (code.k = "TO" /\ s.mode # "none") => CellsFree(s, code.n)
-Next == \/ \E c \in Chans, code \in Codes : Legal(c, code) /\ Ctrl(c, code)
-        \/ \E f \in {FieldOf(c) : c \in Chans}, c1 \in Chars, c2 \in Chars \cup {0} : Text(f, c1, c2)
-        \/ \E f \in {FieldOf(c) : c \in Chans} : Null(f)
+\* a step whose code class is in KS
+NextK(KS) == \/ \E c \in Chans, code \in {x \in Codes : x.k \in KS} : (IsRep(c, code) \/ Legal(c, code)) /\ Ctrl(c, code)
+             \/ "TEXT" \in KS /\ K("TEXT") /\ \E f \in {FieldOf(c) : c \in Chans}, c1 \in Chars, c2 \in Chars \cup {0} : Text(f, c1, c2)
+             \/ "NULL" \in KS /\ K("NULL") /\ \E f \in {FieldOf(c) : c \in Chans} : Null(f)
+Next == NextK(AllKinds)
 Spec == Init /\ [][Next]_vars
 Bounded == np < MaxPairs
 
@@ -156,6 +216,11 @@ CursorOK == \A c \in Chans : ch[c].row \in 0..14 /\ ch[c].col \in 1..32
 \* in pop-on mode the visible page changes only with EOC / EDM
 PopOnStable == [][\A c \in Chans : (ch[c].mode = "pop" /\ ch'[c].mode = "pop" /\ ch'[c].disp # ch[c].disp) =>
                      (lastAct'.a = "Ctrl" /\ lastAct'.code.k \in {"EOC", "EDM"})]_vars
-\* the roll-up window never leaves the screen
-WindowOK == \A c \in Chans : ch[c].mode = "roll" => ch[c].base - ch[c].roll + 1 >= 0
+\* the roll-up window never leaves the screen, the cursor stays on its base row, nothing is displayed outside it
+WindowOK == \A c \in Chans : ch[c].mode = "roll" =>
+               /\ ch[c].base - ch[c].roll + 1 >= 0 /\ ch[c].base <= 14 /\ ch[c].row = ch[c].base
+               /\ \A r \in 0..14 : (r > ch[c].base \/ r <= ch[c].base - ch[c].roll) => ch[c].disp[r] = Row0
+\* only one repetition of a control pair is swallowed: a pair that changed nothing although it was no repetition
+\* is a no-op of the machine itself (last is empty after a swallowed pair)
+OneRep == [][(lastAct'.a = "Ctrl" /\ last = <<>>) => (last' # <<>> \/ FieldOf(lastAct'.c) = 2)]_vars
 =============================================================================
